@@ -38,6 +38,8 @@ static void is_stable(T const* a, int n, char const* what)
     ord_t c;
     for (int i = 0; i + 1 < n; i++) vf_assert(c(a[i], a[i + 1]) || (bits(a[i]) >> 16) < (bits(a[i + 1]) >> 16), what);
 }
+// two elements that are equivalent under the comparator of the configuration
+static bool has_equiv(T const* a) { ord_t c; bool r = false; unrolled<0, LN>([&](int i) { for (int j = 0; j < LN; j++) r = r || (i < j && !c(a[i], a[j]) && !c(a[j], a[i])); }); return r; }
 #define PRED unsigned pm = vf_nd_u32(); int pp = (int)vf_nd_u32(); upred P{pm, pp}
 
 #define SORT_ENTRY(NAME, STABLE)                                                                                        \
@@ -54,7 +56,7 @@ SORT_ENTRY(stable_sort, 1)
 Q q_bubble_sort()
 { // documented by etl: "The order of equal elements is guaranteed to be preserved"
     T* a = sym(LN); T* a0 = dup(a, LN);
-    VF_KNOWN(C06_bubble_sort_unstable, TAGGED != 0);
+    VF_KNOWN(C06_bubble_sort_unstable, TAGGED != 0 && has_equiv(a));
     k_bubble_sort(a, LN);
     is_sorted_(a, 0, LN, "bubble_sort: result is sorted w.r.t. the comparator"); is_perm(a, a0, LN, "bubble_sort: result is a permutation of the input");
     if (TAGGED) is_stable(a, LN, "bubble_sort: equivalent elements keep their original order (documented)");
